@@ -847,6 +847,7 @@ func TestMain(m *testing.M) {
 		vt.NewLeg("memory", 1500, 6000, 4, genCase("memory"), runCase),
 		vt.NewLeg("oci", 2000, 4000, 8, genCase("oci"), runCase),
 		vt.NewLeg("file", 700, 3000, 4, genCase("file"), runCase),
+		vt.NewLeg("nameclash", 400, 2000, 4, genClash, runClash),
 	)
 }
 
